@@ -86,6 +86,14 @@ class Hist:
     def hs(self, pairs):
         return {self.ty(k): (lambda req, h=h: h) for k, h in pairs}
 
+    def call_handle(self, f, pairs):
+        """one override -> the (type, handler) form of handle(); otherwise the mapping form"""
+        m = self.hs(pairs)
+        if len(m) == 1:
+            (cls, h), = m.items()
+            return f(cls, h)
+        return f(m)
+
     def thread_obj(self, tid):
         if tid == 0:
             return threading.main_thread()
@@ -143,7 +151,7 @@ class Hist:
                     self.items.append(("tok", "E:unbound")); continue
                 y = self.vars[it[2]]
                 before = dict(y.handlers) if hasattr(y, "handlers") else None
-                ok, r = self.guarded(lambda: y.handle(self.hs(it[3])))
+                ok, r = self.guarded(lambda: self.call_handle(y.handle, it[3]))
                 if ok:
                     self.vars[it[1]] = r; self.keep.append(r)
                     if r is y:
@@ -153,7 +161,7 @@ class Hist:
             elif k == "h":
                 cur = self.probe()
                 before = dict(cur.handlers) if hasattr(cur, "handlers") else None
-                ok, r = self.guarded(lambda: RT.handle(self.hs(it[2])))
+                ok, r = self.guarded(lambda: self.call_handle(RT.handle, it[2]))
                 if ok:
                     self.vars[it[1]] = r; self.keep.append(r)
                     if cur is not MISSING and r is cur:
@@ -275,49 +283,53 @@ class Hist:
 
 
 def anchors():
-    """cache.disabled() / logging.disabled() are runtimes derived via handle(): scoping holds for them."""
+    """cache.disabled() / logging.disabled() are runtimes derived via handle(): scoping holds for them.
+    Identity is read from the thread's slot (`_RUNTIMES`), as in the histories."""
     import labrea.cache as C, labrea.logging as L
     bad = []
+    def slot():
+        return RT._RUNTIMES.get(threading.current_thread(), MISSING)
     def body():
-        before = RT._RUNTIMES.get(threading.current_thread(), MISSING)
-        base = RT.current_runtime()
+        RT.current_runtime()
+        base = slot()
         h_log = base.handlers.get(L.LogRequest)
         snap = dict(base.handlers)
         try:
             with C.disabled():
-                r1 = RT.current_runtime()
+                r1 = slot()
+                if r1 is base or r1 is MISSING:
+                    bad.append("anchors: cache.disabled() is not current inside its block"); return
                 if r1.handlers.get(C.CacheGetRequest) is not C._disabled_get_cache_handler:
                     bad.append("anchors: cache.disabled() does not serve CacheGetRequest inside its block")
                 if r1.handlers.get(L.LogRequest) is not h_log:
                     bad.append("anchors: cache.disabled() changed the LogRequest handler")
                 with L.disabled():
-                    r2 = RT.current_runtime()
+                    r2 = slot()
                     if r2.handlers.get(L.LogRequest) is not L._disabled_logging_handler:
                         bad.append("anchors: logging.disabled() does not serve LogRequest inside its block")
                     if r2.handlers.get(C.CacheGetRequest) is not C._disabled_get_cache_handler:
                         bad.append("anchors: nested logging.disabled() lost the cache.disabled() handlers")
                     with r1:
-                        if RT.current_runtime() is not r1:
+                        if slot() is not r1:
                             bad.append("anchors: re-entered runtime is not current")
-                    if RT.current_runtime() is not r2:
+                    if slot() is not r2:
                         bad.append("anchors: leaving a re-entered runtime did not restore the inner one")
-                if RT.current_runtime() is not r1:
+                if slot() is not r1:
                     bad.append("anchors: leaving logging.disabled() did not restore cache.disabled()")
                 raise Boom()
         except Boom:
             pass
-        if RT.current_runtime() is not base:
+        if slot() is not base:
             bad.append("anchors: leaving cache.disabled() by exception did not restore the base runtime")
         if dict(base.handlers) != snap:
             bad.append("anchors: disabled() altered the runtime it derives from")
-        # fresh-thread part: no runtime before -> none after when nothing forces one
     th = threading.Thread(target=body); th.start(); th.join(WAIT)
     body()
     def fresh():
         r = Runtime()
         with r:
             pass
-        if RT._RUNTIMES.get(threading.current_thread(), MISSING) is not MISSING:
+        if slot() is not MISSING:
             bad.append("anchors: a thread without runtime has a slot after `with Runtime(): pass`")
     th = threading.Thread(target=fresh); th.start(); th.join(WAIT)
     return bad
